@@ -13,10 +13,10 @@ ENTRY = dict(
                 "(independence of tokens) and for the two per-token orders, not as one theorem over arbitrary inboxes"),
     technique="Lean 4 proof (decision kernel + per-token independence of the gateway actor) + exhaustive differential",
     lean_modules=["Bpmn.Props.EngineSteps", "Bpmn.Props.C04", "Bpmn.Props.EngineCurrent", "Bpmn.Props.C04Current"],
-    families=["c04cond", "c04", "c04host"],
+    families=["c04cond", "c04", "c04host", "c04again"],
     exhaustive=True,
     facts_from=["Engine"],   # plus its own Bpmn.Gen.C04 (xpathVarsReachable: which model of the XPath engine c04cond uses)
-    rule=("c04host: one token deciding at two exclusive gateways in a row while the HOST rewrites, through Process.Locator().SetVariable, the variable the second decision reads (16 cases: old / new value, written right before the decision or one task earlier, optionally also before the first decision); c04: process fork(k tokens) -> exclusive gateway with c conditional flows (`b_i == 1`) and an optional default at "
+    rule=("c04again: ONE token passing ONE exclusive gateway again and again in a loop while the task in the loop rewrites the variable the conditions read (count to K in 1..4 visits; a script of values each taking its own branch), in both expression languages — every visit is decided on the values of that visit; c04host: one token deciding at two exclusive gateways in a row while the HOST rewrites, through Process.Locator().SetVariable, the variable the second decision reads (16 cases: old / new value, written right before the decision or one task earlier, optionally also before the first decision); c04: process fork(k tokens) -> exclusive gateway with c conditional flows (`b_i == 1`) and an optional default at "
           "list position d -> one task per outgoing flow; all c in 1..4, d in {none,0..c}, all 2^c truth assignments, k in 1..3 "
           "(quick: one third of c=4), tokens released one by one or all at once; observations at quiescence compared with the "
           "model and with the token game; c04cond: seeded random conditions (depth <= 3) over 1 or 3 integer variables "
